@@ -23,7 +23,8 @@ def _init():
 
 
 def _work(job):
-    qual, timeout_ms, budget_s = job
+    qual, timeout_ms, budget_s = job[:3]
+    start = job[3] if len(job) > 3 else None
     t0 = time.time()
     try:
         reg, loader = _init()
@@ -31,7 +32,7 @@ def _work(job):
         if qual in reg.lemmas:
             res = reg.lemmas[qual].run(loader, reg, timeout_ms)
         else:
-            res = verify_unit(loader, reg.contracts[qual], reg, timeout_ms=timeout_ms, deadline=t0 + budget_s)
+            res = verify_unit(loader, reg.contracts[qual], reg, timeout_ms=timeout_ms, deadline=t0 + budget_s, start=start)
         return pack(res)
     except Exception:
         return {"unit": qual, "error": traceback.format_exc(), "obligations": [], "paths": 0, "outcomes": 0,
@@ -79,18 +80,69 @@ def aggregate(obls):
     return agg
 
 
+HEAVY_FRONTIER = 24          # units are split into this many subtrees of their path tree
+
+
+def _split(job):
+    """explore the top of a unit's path tree breadth-first and return the partial result plus the pending subtrees"""
+    qual, timeout_ms, budget_s = job
+    t0 = time.time()
+    try:
+        reg, loader = _init()
+        from pyvc.unit import verify_unit
+        if qual in reg.lemmas:
+            return pack(reg.lemmas[qual].run(loader, reg, timeout_ms)), []
+        res = verify_unit(loader, reg.contracts[qual], reg, timeout_ms=timeout_ms, deadline=t0 + budget_s,
+                          frontier=HEAVY_FRONTIER)
+        return pack(res), res.pending
+    except Exception:
+        return {"unit": qual, "error": traceback.format_exc(), "obligations": [], "paths": 0, "outcomes": 0,
+                "demoted": None, "seconds": time.time() - t0, "solver_seconds": 0.0, "source": "", "case_cover": {},
+                "infeasible": 0, "backedges": 0}, []
+
+
+def merge(parts):
+    out = dict(parts[0])
+    out["obligations"] = list(out["obligations"])
+    out["case_cover"] = dict(out["case_cover"])
+    for p in parts[1:]:
+        out["obligations"].extend(p["obligations"])
+        for k in ("paths", "outcomes", "infeasible", "backedges"):
+            out[k] += p[k]
+        out["solver_seconds"] = round(out["solver_seconds"] + p["solver_seconds"], 3)
+        out["seconds"] = round(max(out["seconds"], p["seconds"]), 3)
+        out["demoted"] = out["demoted"] or p["demoted"]
+        out["error"] = out.get("error") or p.get("error")
+        for k, v in p["case_cover"].items():
+            out["case_cover"][k] = out["case_cover"].get(k, 0) + v
+    return out
+
+
 def run_units(quals, tier):
+    """verify the units; a unit with many paths is split into subtrees of its path tree that are explored by
+    different processes (every path is still explored exactly once)"""
     timeout_ms = 20000 if tier == "quick" else 120000
-    budget = 240 if tier == "quick" else 1500
+    budget = 600 if tier == "quick" else 3000
     jobs = [(q, timeout_ms, budget) for q in quals]
     if not jobs:
         return []
-    n = max(1, min(12, len(jobs)))
-    if n == 1 or os.environ.get("PYVC_SERIAL"):
+    if os.environ.get("PYVC_SERIAL"):
         return [_work(j) for j in jobs]
     ctx = mp.get_context("fork")
-    with ctx.Pool(n) as pool:
-        return list(pool.imap_unordered(_work, jobs))
+    nproc = 14
+    with ctx.Pool(nproc) as pool:
+        heads = list(pool.imap_unordered(_split, jobs))
+        sub = []
+        for (part, pending) in heads:
+            for item in pending:
+                sub.append((part["unit"], timeout_ms, budget, [item]))
+        tails = list(pool.imap_unordered(_work, sub, chunksize=1)) if sub else []
+    by_unit = {}
+    for (part, _p) in heads:
+        by_unit[part["unit"]] = [part]
+    for t in tails:
+        by_unit[t["unit"]].append(t)
+    return [merge(v) for v in by_unit.values()]
 
 
 def run_groups(pid, groups, tier, seed):
